@@ -218,6 +218,19 @@ def check(ctx):
                "the stored value is always the result of self._reconcile_column(value)" if ok else
                "a value reaches storage without passing _reconcile_column: columns of any length / type can be stored",
                clause="any other length mismatch is rejected instead of being stored")
+    # nothing of the new column is recorded before the value has passed reconciliation (which rejects bad lengths by raising):
+    # an attribute registered first would survive the rejection
+    recs_ = [c for _, c in calls_in(seti) if isinstance(c.func, ast.Attribute) and c.func.attr == "_reconcile_column"]
+    sets_ = [c for _, c in calls_in(seti) if isinstance(c.func, ast.Attribute) and c.func.attr == "__setattr__"] + \
+            [c for _, c in calls_in(seti) if isinstance(c.func, ast.Name) and c.func.id == "setattr"]
+    from ..common import precedes as _prec01
+    for c in sets_:
+        okp = bool(recs_) and all(_prec01(seti, r_, c) for r_ in recs_)
+        ctx.ob("STO-2", seti, f"{norm(c)[:60]} after _reconcile_column", c, okp,
+               "the attribute is registered only once the value has been accepted" if okp else
+               f"{norm(c)[:50]} runs before the value is reconciled: when reconciliation raises (wrong length) the column is not stored but "
+               f"the attribute stays -- the name is reachable by attribute and not by key",
+               clause="any other length mismatch is rejected ...; a column is reachable identically by key and by attribute")
     # the column is stored under the very name that was asked for
     kp = seti.params[1] if len(seti.params) > 1 else "key"
     for f, c in stores:
